@@ -62,7 +62,8 @@ pub fn well_formed_id(id: u64) -> bool {
 
 pub fn gen_spec(rng: &mut Rng, o: &SpecOpts) -> SpecTable {
     if rng.below(100) < o.static_pct {
-        return crate::spec::static_table();
+        // (the second one has ids with first bytes 0x08 and 0x01: not where junk bytes need those free)
+        return if o.reserve_junk || rng.chance(1, 2) { crate::spec::static_table() } else { crate::spec::static2_table() };
     }
     let mut elems: Vec<ElemDef> = Vec::new();
     let mut used: Vec<u64> = vec![VOID_ID, CRC_ID];
